@@ -129,16 +129,29 @@ func c02build(st string) *c02world {
 		}
 	case strings.HasPrefix(st, "restarted"):
 		sw.tick()
-		if p := sw.pendingOut(); len(p) > 0 {
-			w.oldTx = p[0].data
-		}
 		sw.establish()
+		// a request of the ending generation that is still outstanding inside the agent when Restart is called
+		sw.tick()
+		for _, d := range sw.pendingOut() {
+			for _, pr := range sw.x.agent.pendingBindingRequests {
+				if w.oldTx == nil && pr.transactionID == describeSTUN(d.data).tx {
+					w.oldTx = d.data
+				}
+			}
+		}
+		if w.oldTx == nil {
+			for _, d := range sw.pendingOut() {
+				w.oldTx = d.data
+			}
+		}
 		w.oldLocalUfrag, w.oldLocalPwd, w.oldPeerUfrag, w.oldPeerPwd = sw.x.agent.localUfrag, sw.x.agent.localPwd, sw.peerUfrag, sw.peerPwd
 		sw.x.gen++
 		if err := sw.x.agent.Restart("ufragAAAAg1", "pwdAAAAAAAAAAAAAAAAAAAAAAAg1"); err != nil {
 			panic(err)
 		}
-		sw.peerUfrag, sw.peerPwd = "ufragBBBBg1", "pwdBBBBBBBBBBBBBBBBBBBBBBBg1"
+		if !strings.Contains(st, "samepeer") { // a peer is not obliged to change its credentials
+			sw.peerUfrag, sw.peerPwd = "ufragBBBBg1", "pwdBBBBBBBBBBBBBBBBBBBBBBBg1"
+		}
 		sw.inflight = nil
 		sw.x.socks, sw.x.cands = nil, nil
 		for i := 0; i < cfg.Locals; i++ {
@@ -438,7 +451,7 @@ func checkC02(c *runCtx) {
 	c.assume("FINGERPRINT is varied but not part of the statement's validity rule (the agent does not require it)",
 		"a source given in IPv4-mapped form is the same address as its IPv4 form",
 		"attributes placed after MESSAGE-INTEGRITY are outside its coverage (RFC 5389): such a message counts as signed iff the library's check accepts it")
-	states := []string{"fresh-controlling", "fresh-controlled", "pending-controlling", "pending-controlled", "valid-controlling", "connected-controlling", "connected-controlled", "restarted-controlling", "restarted-controlled", "lite-controlled"}
+	states := []string{"fresh-controlling", "fresh-controlled", "pending-controlling", "pending-controlled", "valid-controlling", "connected-controlling", "connected-controlled", "restarted-controlling", "restarted-controlled", "restarted-samepeer-controlling", "restarted-samepeer-controlled", "lite-controlled"}
 	msgs := c02messages(c.quick())
 	var cases []c02case
 	for _, st := range states {
